@@ -197,14 +197,44 @@ def _wf_list(rng, nmin=1):
     return out
 
 
-for nm, other in (("count_polya_exons", "internal_polya_pos"), ("count_polyt_exons", "internal_polyt_pos")):
-    contract(PV + "PolyAFixer." + nm, {"self": "rec:PolyAFixer", "read_exons": IVS, other: "int"}, returns="int",
-             props=["C16", "C11"], requires=["WF(read_exons)"],
-             ensures=["0 <= result <= len(read_exons)", "%s != -1 or result == 0" % other],
-             loops={0: {"inv": ["0 <= polya_exon_count <= _k0"]}}, native_args=_params,
-             gen=(lambda o: (lambda rng, n: ({"self": _gen_fixer(rng), "read_exons": _wf_list(rng), o: rng.choice([-1, rng.randint(1, 60)])}
-                                             for _ in range(n))))(other),
-             canary="result == 0")
+# An exon "consists of an aligned tail" when it lies beyond the tail position altogether, or when it is short (its genuine part at most
+# max_fake_terminal_exon_len) and more than 2/3 of it is tail. Sorted exons make the exons with this property a suffix (polyA) / a prefix
+# (polyT) of the list; the counters return the length of exactly that suffix / prefix - mirror images of each other.
+_M = "self.params.max_fake_terminal_exon_len"
+_condA = lambda j: ("(read_exons[%s][1] > internal_polya_pos and (internal_polya_pos - read_exons[%s][0] <= 0 or "
+                    "(internal_polya_pos - read_exons[%s][0] <= %s and read_exons[%s][1] - internal_polya_pos > 2 * (internal_polya_pos - read_exons[%s][0]))))"
+                    % (j, j, j, _M, j, j))
+_condT = lambda j: ("(read_exons[%s][0] < internal_polyt_pos and (read_exons[%s][1] - internal_polyt_pos <= 0 or "
+                    "(read_exons[%s][1] - internal_polyt_pos <= %s and internal_polyt_pos - read_exons[%s][0] > 2 * (read_exons[%s][1] - internal_polyt_pos))))"
+                    % (j, j, j, _M, j, j))
+_N = "len(read_exons)"
+contract(PV + "PolyAFixer.count_polya_exons", {"self": "rec:PolyAFixer", "read_exons": IVS, "internal_polya_pos": "int"}, returns="int",
+         props=["C16", "C11"], requires=["WF(read_exons)"],
+         ensures=["0 <= result <= len(read_exons)", "internal_polya_pos != -1 or result == 0",
+                  # every counted exon consists of tail ...
+                  "internal_polya_pos == -1 or all(%s for j in range(%s - result, %s))" % (_condA("j"), _N, _N),
+                  # ... and the exon in front of them does not
+                  "internal_polya_pos == -1 or result == %s or not %s" % (_N, _condA("%s - result - 1" % _N))],
+         loops={0: {"inv": ["0 <= polya_exon_count <= _k0",
+                            "all(%s for j in range(%s - polya_exon_count, %s))" % (_condA("j"), _N, _N),
+                            "polya_exon_count == _k0 or (polya_exon_count == _k0 - 1 and read_exons[%s - _k0][0] < internal_polya_pos and not %s)"
+                            % (_N, _condA("%s - _k0" % _N))]}},
+         native_args=_params,
+         gen=lambda rng, n: ({"self": _gen_fixer(rng), "read_exons": _wf_list(rng), "internal_polya_pos": rng.choice([-1, rng.randint(1, 60)])} for _ in range(n)),
+         canary="result == 0", timeout=30000)
+
+contract(PV + "PolyAFixer.count_polyt_exons", {"self": "rec:PolyAFixer", "read_exons": IVS, "internal_polyt_pos": "int"}, returns="int",
+         props=["C16", "C11"], requires=["WF(read_exons)"],
+         ensures=["0 <= result <= len(read_exons)", "internal_polyt_pos != -1 or result == 0",
+                  "internal_polyt_pos == -1 or all(%s for j in range(result))" % _condT("j"),
+                  "internal_polyt_pos == -1 or result == %s or not %s" % (_N, _condT("result"))],
+         loops={0: {"inv": ["0 <= polya_exon_count <= _k0",
+                            "all(%s for j in range(polya_exon_count))" % _condT("j"),
+                            "polya_exon_count == _k0 or (polya_exon_count == _k0 - 1 and read_exons[_k0 - 1][1] > internal_polyt_pos and not %s)"
+                            % _condT("_k0 - 1")]}},
+         native_args=_params,
+         gen=lambda rng, n: ({"self": _gen_fixer(rng), "read_exons": _wf_list(rng), "internal_polyt_pos": rng.choice([-1, rng.randint(1, 60)])} for _ in range(n)),
+         canary="result == 0", timeout=30000)
 
 contract(PV + "PolyAFixer.correct_read_info", {"self": "rec:PolyAFixer", "read_exons": IVS, "polya_info": "rec:PolyAInfo"},
          returns="tuple[int,int]", props=["C16"], requires=["WF(read_exons)", "len(read_exons) >= 1"],
